@@ -58,6 +58,12 @@ def opsProcess (op : String) (j : Json) : Option (Except String Json) :=
       let order ← getStrList j "order"
       let present ← getStrList j "present"
       pure (Json.arr ((pulldataVisit true order fun a => a ∈ present).map jstr).toArray)
+  | "proc.nsmap" => some do
+      let tokens ← getStrList j "tokens"
+      pure (pairsToJson (nsmapOf baseNsmap tokens))
+  | "proc.itemsetsHeader" => some do
+      let rows ← (← getArr j "rows").toList.mapM strList
+      pure (Json.arr ((itemsetsHeader none rows).map jstr).toArray)
   | _ => none
 
 end Pyxv.Process
